@@ -25,7 +25,7 @@ META = {
 INDENT = ["", "  ", "\t"]
 SPEC = ["c/a", "c/b-1.2"]
 SEP = [" ", "   ", "\t"]
-KWS = [[], ["amd64"], ["*"], ["^"], ["amd64", "*"], ["-"], ["~x86", "^"], ["amd64#x86", "*"]]
+KWS = [[], ["amd64"], ["*"], ["^"], ["amd64", "*"], ["-"], ["~x86", "^"], ["amd64#x86", "*"], ["amd64", "~x86", "arm"]]
 KWSEP = [" ", "  "]
 TRAIL = ["", " "]
 COMMENT = ["", " # note", "# c", "\t#x *"]
@@ -102,7 +102,7 @@ class ListHarness(Harness):
         c = core.fix(inp) if core.ENG is not None else inp
         parts = []
         for i, d in enumerate(c["lines"]):
-            p = {"kw": d["kw"], "comment": d["comment"], "indent": d.get("indent", 0), "spec": i % 2, "sep": d.get("sep", 0), "kwsep": (d["kw"] + i) % 2, "trail": d.get("trail", 0), "special": SPECIAL[d.get("special", 0)]}
+            p = {"kw": d["kw"], "comment": d["comment"], "indent": d.get("indent", 0), "spec": i % 2, "sep": d.get("sep", 0), "kwsep": 1 if d["kw"] == 8 else (d["kw"] + i) % 2, "trail": d.get("trail", 0), "special": SPECIAL[d.get("special", 0)]}
             parts.append(p)
         lines = [mkline(p) for p in parts]
         eols = [EOL[d["eol"]] for d in c["lines"]]
@@ -153,7 +153,7 @@ def obligations(tier, seed):
                 for kw0 in range(len(KWS)):
                     if n == 3 and (kw0 % 2 or last_eol):
                         continue
-                    if tier == "quick" and (sugg == 1 or (full == [0] and not (sugg == 2 and last_eol and kw0 in (2, 3, 7)))):
+                    if tier == "quick" and (sugg == 1 or (full == [0] and not (sugg == 2 and last_eol and kw0 in (2, 3, 8)))):
                         continue
                     obs.append({"oid": f"lines={n}|full={full}|suggest={SUGGEST[sugg]}|last_eol={last_eol}|first_kw={KWS[kw0]}", "n": n, "full": full, "sugg": sugg, "last_eol": last_eol, "kw0": kw0, "max_paths": 3000000, "max_s": 2400})
     UNIVERSE[tier] = {"shapes": len(obs)}
